@@ -173,7 +173,8 @@ func detGenStream(rng *rand.Rand, c detCfg, mode string) []detFrame {
 		base = []int{2800, 2940, 3000, 3060, 3200}[rng.Intn(5)]
 		amp = rng.Intn(3)
 	}
-	ffc := mode == "ffc" || mode == "pair-ffc" || (mode == "dyn" && rng.Intn(2) == 0)
+	ffc := mode == "ffc" || mode == "pair-ffc" || (mode == "dyn" && rng.Intn(2) == 0) ||
+		((mode == "pair-cold" || mode == "pair-border") && rng.Intn(3) == 0) // FFC periods (of every parity) also in the paired streams
 	resets := mode != "pair-ffc" && rng.Intn(3) == 0
 	T := c.Thresh
 	vals := []int{T - 1, T, T + 1, T + c.Delta, T + c.Delta + 1, T + c.Delta - 1, 0, 65535, base + c.Delta + 1, base + 2*c.Delta + 5, base - c.Delta - 1}
